@@ -35,6 +35,8 @@ def gw_extra(n, s):
     s = min(s, n - 1)
     if s < 1:
         raise ValueError("no unit")
+    if s == 1:
+        return n * (n - 1) // 2         # t = n - 1; no search needed
     t = 1
     while not (beta(s, t - 1) < n <= beta(s, t)):
         t += 1
@@ -111,6 +113,8 @@ class MixedTable:
             raise ValueError("no unit")
         if n <= s + 1:
             return n
+        if s == 1:
+            return n * (n + 1) // 2 - 1
         return self._row(s, n)[n]
 
 
